@@ -89,16 +89,24 @@ def call_shape(chk):
         kwform = rng.choice(['pairs', 'od', 'dict', 'zip', 'gen', 'iter', 'items', 'tuple'])
         com = {}
         cargs = list(args)
-        if args and rng.random() < 0.2:
+        ckwargs = list(kwargs)
+        r_ = rng.random()
+        if args and r_ < 0.2:
             i = rng.randrange(len(args))
             cargs[i] = P.comment(args[i], 'note')
-        v = Carrier(fn, cargs, kwargs, alt, kwform)
+        elif kwargs and r_ < 0.45:
+            # a comment on a KEYWORD value only (the call must still be laid out so that the comment ends its line)
+            i = rng.randrange(len(kwargs))
+            ckwargs[i] = (kwargs[i][0], P.comment(kwargs[i][1], 'kw note'))
+        v = Carrier(fn, cargs, ckwargs, alt, kwform)
         if Ellipsis not in args and all(x is not Ellipsis for _, x in kwargs):
-            bound.append(Carrier(fn, cargs, kwargs, alt, 'pairs'))
-        for w in rng.sample([1, 10, 30, 79, 200], 2):
+            bound.append(Carrier(fn, cargs, ckwargs, alt, 'pairs'))
+        for w in rng.sample([1, 10, 30, 79, 200, 400, 10 ** 5], 3):
             nprints += 1
             # the settings every argument must be printed with, too ("exactly as it would be on its own")
             settings = {'max_seq_len': rng.choice([1000, 1000, 2, 1, None]), 'sort_dict_keys': rng.random() < 0.4}
+            if w >= 200:
+                settings['ribbon_width'] = w      # wide enough for the whole call to fit on one line
             desc = {'callable': expected_name(fn), 'args': repr(args)[:200], 'kwargs': repr(kwargs)[:200],
                     'via': 'pretty_call_alt/' + kwform if alt else 'pretty_call', 'width': w, 'settings': settings}
             try:
@@ -106,8 +114,9 @@ def call_shape(chk):
                     warnings.simplefilter('always')
                     with common.time_limit(20):
                         out = P.pformat(v, width=w, **settings)
-                        own = [pyterm.parse_output(P.pformat(a, width=10 ** 5, ribbon_width=10 ** 5, **settings)) for a in args]
-                        kown = [[n, pyterm.parse_output(P.pformat(a, width=10 ** 5, ribbon_width=10 ** 5, **settings))]
+                        oset = {k_: x_ for k_, x_ in settings.items() if k_ != 'ribbon_width'}
+                        own = [pyterm.parse_output(P.pformat(a, width=10 ** 5, ribbon_width=10 ** 5, **oset)) for a in args]
+                        kown = [[n, pyterm.parse_output(P.pformat(a, width=10 ** 5, ribbon_width=10 ** 5, **oset))]
                                 for n, a in kwargs]
             except (Exception, common.Timeout, pyterm.ParseError) as e:  # noqa
                 chk.violation('C17.raises', 'printing %r raised %r' % (desc, e), desc)
